@@ -846,6 +846,11 @@ func KeyRules(b []byte) error {
 					return errors.New("key: alg does not match curve")
 				}
 			}
+		} else if !ok {
+			// an algorithm that is not an integer cannot be the one the curve fixes
+			if _, crvKnown := map[int64]int64{1: -7, 2: -35, 3: -36, 6: -8}[crv]; crvKnown {
+				return errors.New("key: alg is not the (integer) algorithm fixed by the curve")
+			}
 		}
 	}
 	return nil
